@@ -709,6 +709,8 @@ package tengo
 //@   ensures array: samestore(c.scopes[c.scopeIndex].Instructions, ins0) || fresh(c.scopes[c.scopeIndex].Instructions)
 //@   ensures operand1: spec.parser_OpcodeOperands_len(int64(opcode)) >= 1 && spec.parser_OpcodeOperands_at(int64(opcode), 0) == 1
 //@              ==> c.scopes[c.scopeIndex].Instructions[result+1] == byte(operands[0])
+//@   ensures operand2: spec.parser_OpcodeOperands_len(int64(opcode)) >= 1 && spec.parser_OpcodeOperands_at(int64(opcode), 0) == 2
+//@              ==> c.scopes[c.scopeIndex].Instructions[result+1] == byte(operands[0] >> 8) && c.scopes[c.scopeIndex].Instructions[result+2] == byte(operands[0])
 
 // ---------------------------------------------------------------------------
 // instruction encoding (C02): MakeInstruction writes exactly the operand
@@ -819,6 +821,17 @@ package tengo
 //@   ensures below{C02!}: result == nil ==> forall j in 0..c.scopeIndex at(c.scopeIndex - 1) ::
 //@                   sameslice(c.scopes[j].Instructions, old(c.scopes[j].Instructions)) && c.scopes[j].SourceMap == old(c.scopes[j].SourceMap)
 //@   ensures prefix{C02!}: result == nil ==> forall i in 0..len(ins0) :: c.scopes[c.scopeIndex].Instructions[i] == old(c.scopes[c.scopeIndex].Instructions[i])
+// an identifier is read with the opcode family of the scope its symbol resolves to
+//@   ensures ident_family{C11}: is(node, *parser.Ident) && result == nil ==>
+//@                  (staticresult(Resolve, 0).Scope == ScopeGlobal ==> c.scopes[c.scopeIndex].Instructions[len(ins0)] == parser.OpGetGlobal
+//@                        && c.scopes[c.scopeIndex].Instructions[len(ins0)+1] == byte(staticresult(Resolve, 0).Index >> 8)
+//@                        && c.scopes[c.scopeIndex].Instructions[len(ins0)+2] == byte(staticresult(Resolve, 0).Index))
+//@               && (staticresult(Resolve, 0).Scope == ScopeLocal ==> c.scopes[c.scopeIndex].Instructions[len(ins0)] == parser.OpGetLocal
+//@                        && c.scopes[c.scopeIndex].Instructions[len(ins0)+1] == byte(staticresult(Resolve, 0).Index))
+//@               && (staticresult(Resolve, 0).Scope == ScopeBuiltin ==> c.scopes[c.scopeIndex].Instructions[len(ins0)] == parser.OpGetBuiltin
+//@                        && c.scopes[c.scopeIndex].Instructions[len(ins0)+1] == byte(staticresult(Resolve, 0).Index))
+//@               && (staticresult(Resolve, 0).Scope == ScopeFree ==> c.scopes[c.scopeIndex].Instructions[len(ins0)] == parser.OpGetFree
+//@                        && c.scopes[c.scopeIndex].Instructions[len(ins0)+1] == byte(staticresult(Resolve, 0).Index))
 //@   ensures export_immutable{C09,C13}: is(node, *parser.ExportStmt) && result == nil && c.parent != nil
 //@              ==> len(c.scopes[c.scopeIndex].Instructions) >= 3
 //@                  && c.scopes[c.scopeIndex].Instructions[len(c.scopes[c.scopeIndex].Instructions)-3] == parser.OpImmutable
@@ -890,9 +903,33 @@ package tengo
 // the verified subset for now; frame and shape are assumed (see DESIGN.md C03)
 //@ func (*Compiler).optimizeFunc
 //@   mode assumed higher-order closures over iterateInstructions
+//@   mode loops-checked
+// pass 4: every source-map entry of a kept instruction moves to the instruction's new offset
+//@   loop 0 step rebased{C14,C03}: continued && haskey(posMap, pos) ==> haskey(newSourceMap, posMap[pos]) && newSourceMap[posMap[pos]] == srcPos
 //@   requires 0 <= c.scopeIndex && c.scopeIndex == len(c.scopes) - 1
 //@   assigns c.scopes[c.scopeIndex].Instructions, c.scopes[c.scopeIndex].SourceMap, heapmap(map[int]parser.Pos)
 //@   ensures c.scopes[c.scopeIndex].SourceMap != nil
+
+// the optimizer's passes are closures handed to iterateInstructions; each is verified on its own.
+// pass 1: all four jump kinds mark their target as a jump destination (code after a return up to the
+// next destination is what pass 2 removes)
+//@ func (*Compiler).optimizeFunc$1
+//@   requires dsts != nil && *dsts != nil
+//@   requires shape: (opcode == parser.OpJump || opcode == parser.OpJumpFalsy || opcode == parser.OpAndJump || opcode == parser.OpOrJump) ==> len(operands) >= 1
+//@   assigns (*dsts)[*]
+//@   ensures marks{C03}: (opcode == parser.OpJump || opcode == parser.OpJumpFalsy || opcode == parser.OpAndJump || opcode == parser.OpOrJump)
+//@                   ==> haskey(*dsts, operands[0]) && (*dsts)[operands[0]]
+//@   ensures goes_on{C03}: result
+// pass 3: all four jump kinds are re-targeted through the position map
+//@ func (*Compiler).optimizeFunc$3
+//@   requires cells: posMap != nil && newInsts != nil
+//@   requires shape: (opcode == parser.OpJump || opcode == parser.OpJumpFalsy || opcode == parser.OpAndJump || opcode == parser.OpOrJump)
+//@                   ==> len(operands) == 1 && 0 <= pos && pos <= len(*newInsts) - 5
+//@   assigns *
+//@   ensures retarget{C03}: (opcode == parser.OpJump || opcode == parser.OpJumpFalsy || opcode == parser.OpAndJump || opcode == parser.OpOrJump)
+//@                   && haskey(old(*posMap), operands[0])
+//@                   ==> (*newInsts)[pos] == opcode && (*newInsts)[pos+1] == byte(old((*posMap)[operands[0]]) >> 24) && (*newInsts)[pos+2] == byte(old((*posMap)[operands[0]]) >> 16)
+//@                       && (*newInsts)[pos+3] == byte(old((*posMap)[operands[0]]) >> 8) && (*newInsts)[pos+4] == byte(old((*posMap)[operands[0]]))
 
 // module compilation runs a forked compiler on fresh state; the importing
 // compiler's scopes are not touched (assumed: recover inside the parser)
